@@ -323,6 +323,7 @@ package sqlittle
 
 // the per-entry callback: an error of the nested lookup is recorded in cbErr and stops the scan
 //@ func sqlittle.indexedSelect$1
+//@   props C02 C03 C12 C13 C17
 //@   free-requires !direct
 //@   ghost-exit rowid_hit = old(rowid_hit)
 //@   implements functype db.RecordCB
@@ -354,6 +355,7 @@ package sqlittle
 //@   ghost-exit tabroot = old(tabroot)
 
 //@ func sqlittle.indexedSelectEq$1
+//@   props C02 C03 C12 C13 C17
 //@   free-requires !direct
 //@   ghost-exit rowid_hit = old(rowid_hit)
 //@   implements functype db.RecordCB
@@ -440,6 +442,7 @@ package sqlittle
 //@   ghost-exit vianr = old(vianr)
 
 //@ func sqlittle.indexedSelectNonRowid$1
+//@   props C02 C03 C12 C13 C17
 //@   free-requires !direct
 //@   creation-requires [pkflags] len(pk) == len(schema.PK) && (forall i int :: 0 <= i && i < len(pk) ==> (pk[i].Desc <==> schema.PK[i].SortOrder == 1))
 //@   implements functype db.RecordCB
@@ -487,6 +490,7 @@ package sqlittle
 //@   ghost-exit vianr = old(vianr)
 
 //@ func sqlittle.indexedSelectEqNonRowid$1
+//@   props C02 C03 C12 C13 C17
 //@   free-requires !direct
 //@   creation-requires [separate] reg(pk) != reg(key)
 //@   creation-requires [pkflags] len(pk) == len(schema.PK) && (forall i int :: 0 <= i && i < len(pk) ==> (pk[i].Desc <==> schema.PK[i].SortOrder == 1))
